@@ -46,6 +46,7 @@ type Oracle struct {
 	Events   bool // observer callbacks multiset per operation
 	InCb     bool // C09: inspect the world from inside observer callbacks
 	Res      bool // resources agree with the model
+	Tuple    []ct.Comp // C14: MapN for this ordered tuple returns pointers in parameter order, equal to ID-based access
 	ProbeCb  bool // C07: attempt structural operations from inside removal and batch callbacks
 	Pool     bool // C02: handle uniqueness, Alive of every handle ever issued, counts
 	ZeroInit bool // C11: uninitialised components read as zero (part of World compare anyway)
@@ -570,10 +571,10 @@ func (x *World) run(op *model.Op, res *model.Result) *Violation {
 	case model.OpRemove:
 		h := x.H[op.E]
 		if op.Path == model.PathExchange {
-			x.exchanger(op.Path, nil, op.Rm.List()).Remove(h)
+			x.exchanger(op.Path, nil, rmTuple(op)).Remove(h)
 			return nil
 		}
-		x.mapper(op.Path, op.Rm.List()).Remove(h)
+		x.mapper(op.Path, rmTuple(op)).Remove(h)
 	case model.OpExchange:
 		tuple := op.Tuple()
 		rels := x.relArgs(op.T)
@@ -819,9 +820,9 @@ func (x *World) runBatch(op *model.Op, res *model.Result) *Violation {
 			fn = cbEnt
 		}
 		if op.Path == model.PathExchange {
-			x.exchanger(op.Path, nil, op.Rm.List()).RemoveBatch(batch, fn)
+			x.exchanger(op.Path, nil, rmTuple(op)).RemoveBatch(batch, fn)
 		} else {
-			x.mapper(op.Path, op.Rm.List()).RemoveBatch(batch, fn)
+			x.mapper(op.Path, rmTuple(op)).RemoveBatch(batch, fn)
 		}
 	case model.OpExchangeBatch:
 		ex := x.exchanger(model.PathExchange, tuple, op.Rm.List())
@@ -1021,4 +1022,12 @@ func (x *World) NextPad(mode int) int {
 		}
 	}
 	return 0
+}
+
+// rmTuple: the ordered tuple for a removal (explicit order if the op gives one for exactly Rm).
+func rmTuple(op *model.Op) []ct.Comp {
+	if op.Ord != nil && ct.Of(op.Ord...) == op.Rm {
+		return op.Ord
+	}
+	return op.Rm.List()
 }
